@@ -16,12 +16,12 @@ from harness.tlc import tla
 ALL_LISTS = ['lin', 'pws', 'cvx', 'ip', 'other', 'bounds']
 SETS_QUICK = [set(), {'lin'}, {'p3'}, {'l2'}, {'l1'}, {'bd'}, {'ex'}, {'xb'}, {'lin', 'p3'}]   # one item kind per list of the support model
 SETS_THOROUGH = SETS_QUICK + [{'l1', 'l2'}, {'p3', 'bd'}, {'ex', 'lin'}]
-INVS = ['NoSetLeak', 'SolutionCurrent', 'SolveUsesCurrent', 'CacheCoherent']
+INVS = ['NoSetLeak', 'SolutionCurrent', 'SolveUsesCurrent', 'CacheCoherent', 'DualCurrent']
 PROPS = ['MisuseIsolated', 'Model2Isolated']
 
 
-def consts(K, sets, steps, m2=True, closing=False, late=True):
-    return dict(WithLate=tla(late), K=tla(K), SetChoices='{' + ', '.join(tla(s) for s in sets) + '}', ResetLists=tla(set(ALL_LISTS)),
+def consts(K, sets, steps, m2=True, closing=False, late=True, fail=True):
+    return dict(WithFail=tla(fail), WithLate=tla(late), K=tla(K), SetChoices='{' + ', '.join(tla(s) for s in sets) + '}', ResetLists=tla(set(ALL_LISTS)),
                 MaxSteps=tla(steps), WithModel2=tla(m2), Closing=tla(closing))
 
 
@@ -33,7 +33,7 @@ def run(rep, tier, props):
     jobs = []
     with tlc.Scratch() as sc:
         # (1) exhaustive invariants on the folded state graph
-        model = tlc.make_model('Lifecycle', sc, constants=consts(2, sets, depth), invariants=INVS, properties=PROPS, view='View')
+        model = tlc.make_model('Lifecycle', sc, constants=consts(2, sets, depth, fail=False), invariants=INVS, properties=PROPS, view='View')
         res = tlc.run_tlc(model, sc, workers=12, coverage=True, timeout=3000)
         tlc.require_ok(res, 'Lifecycle exhaustive', allow_violation=True)
         rep.add_tlc('Lifecycle[K=2,|sets|=%d,steps<=%d,view]' % (len(sets), depth), res)
@@ -55,6 +55,29 @@ def run(rep, tier, props):
         take = interesting[:nsim // 3] + misuse[:nsim // 6]
         for r in take:
             jobs.append(dict(rec=r, K=2))
+        # (2c) focused histories, exhaustively to depth 5 on a small alphabet (two sets, one model, no late variable): the
+        #      multi-step patterns random walks rarely produce - a dual requested before AND after a change; a successful
+        #      solve, the contradictory row, a failed solve, a read of the results
+        def pattern(r):
+            h = r['hist']
+            acts = [x['act'] for x in h]
+            duals = [i for i, x in enumerate(h) if x['act'] == 'do_math_dual' and x['expect'] == 'ok']
+            p1 = len(duals) >= 2 and any(a in ('st', 'forall') for a in acts[duals[0] + 1:duals[-1]])
+            oks = [i for i, x in enumerate(h) if x['act'] in ('solve', 'soc_solve') and x['expect'] == 'ok']
+            fails = [i for i, x in enumerate(h) if x['act'] in ('solve', 'soc_solve') and x['expect'] == 'fail']
+            p2 = bool(oks) and bool(fails) and oks[0] < fails[-1] and 'read' in acts[fails[-1]:]
+            return 2 if p2 else 1 if p1 else 0
+        model = tlc.make_model('Lifecycle', sc, constants=consts(2, [{'lin'}, {'ex'}], 5, m2=False, late=False), invariants=INVS + ['ExportEnd'])
+        res = tlc.run_tlc(model, sc, workers=12, coverage=False, timeout=3000, export_sample=(nsim // 4, rep.seed + 77, lambda r: {0: None, 1: False, 2: True}[pattern(r)]))
+        tlc.require_ok(res, 'Lifecycle focused histories')
+        rep.add_tlc('Lifecycle[focused histories of length 5, exhaustive, dual-after-change / fail-after-success patterns]', res)
+        foc = [r for r in res['exports'] if pattern(r)]
+        rep.extra['lifecycle_focused_fail_then_read'] = sum(1 for r in foc if pattern(r) == 2)
+        if len(foc) < 20 or rep.extra['lifecycle_focused_fail_then_read'] < 5:
+            raise tlc.MachineryError('Lifecycle: only %d focused histories' % len(foc))
+        for r in foc:
+            jobs.append(dict(rec=r, K=2))
+        rep.extra['lifecycle_focused'] = len(foc)
         # (2b) long histories by simulation
         for (K, steps, n, m2) in ((2, 7, nsim // 3, False), (2, 9, nsim // 3, True), (3, 10, nsim // 3, False)):
             model = tlc.make_model('Lifecycle', sc, constants=consts(K, sets, steps, m2=m2, closing=True), invariants=INVS + ['ExportEnd'])
